@@ -37,11 +37,31 @@ def kvs(line):
     return dict(w.split("=", 1) for w in line.split() if "=" in w)
 
 
+def enc_verdict(el, rwq):
+    """the encoder-discipline part of the statement on the encoder call log"""
+    depth = 0
+    closed = False
+    for e in el:
+        if e == "enc+":
+            if closed:
+                return "Encode called after the encoder was closed", {"kind": "encode-after-close", "rwq": rwq}
+            depth += 1
+        elif e == "enc-":
+            depth -= 1
+        elif e == "close":
+            if depth > 0:
+                return "encoder closed while an Encode was in flight", {"kind": "close-during-encode", "rwq": rwq}
+            closed = True
+    return None
+
+
 def oracle(op, out):
     if out.startswith("HARNESS-TIMEOUT") or out == "<missing>":
         return None
     cfg, kv = kvs(op), kvs(out)
-    fr = [f for f in kv.get("frames", "-").replace("+", ",").split(",") if f and f != "-"]
+    # one entry per transport write (WebSocket message); replies batched into it are joined with '+'
+    msgs = [m.split("+") for m in kv.get("frames", "-").split(",") if m and m != "-"]
+    fr = [f for m in msgs for f in m]
     notes = kv.get("notes", "-")
     ci = [i for i, f in enumerate(fr) if f in ("C", "ZC")]
     if ci and ci[0] != 0:
@@ -51,29 +71,19 @@ def oracle(op, out):
     if cfg.get("dict") == "1":
         if "ZC" in fr:
             return "the connect reply went through the dictionary encoder", {"kind": "connect-reply-encoded"}
-        if ci:
-            for f in fr[ci[0] + 1:]:
-                if not f.startswith("Z"):
-                    return f"frame {f} after the connect reply bypassed the encoder", {"kind": "frame-not-encoded"}
+        mi = [i for i, m in enumerate(msgs) if "C" in m]
+        if mi:
+            for m in msgs[mi[0] + 1:]:
+                for f in m:
+                    if not f.startswith("Z"):
+                        return f"frame {f} after the connect reply bypassed the encoder", {"kind": "frame-not-encoded"}
         el = [e for e in kv.get("enc", "-").split(",") if e and e != "-"]
         ncl = el.count("close")
         if "new" in el and ncl != 1 and "encoder-never-closed" not in notes:
             return f"encoder closed {ncl} times", {"kind": "encoder-close-count", "n": ncl}
         if "new" in el and "encoder-never-closed" in notes:
             return "encoder never closed although the connection went away", {"kind": "encoder-never-closed"}
-        depth = 0
-        closed = False
-        for e in el:
-            if e == "enc+":
-                if closed:
-                    return "Encode called after the encoder was closed", {"kind": "encode-after-close", "rwq": cfg.get("rwq")}
-                depth += 1
-            elif e == "enc-":
-                depth -= 1
-            elif e == "close":
-                if depth > 0:
-                    return "encoder closed while an Encode was in flight", {"kind": "close-during-encode", "rwq": cfg.get("rwq")}
-                closed = True
+        return enc_verdict(el, cfg.get("rwq"))
     return None
 
 
@@ -107,8 +117,7 @@ def model_ops(op, out):
                 if rwq and late and depth == 0:
                     labels.append("dLoad")
                 labels += ["closeWriter", "closeEncoder"]
-        bad = oracle(op, out)
-        viol = 1 if bad and bad[1].get("kind") in ("close-during-encode", "encode-after-close") else 0
+        viol = 1 if enc_verdict(el, cfg.get("rwq")) else 0
         res.append((f"e rwq={cfg.get('rwq')} " + " ".join(labels), f"violated={viol}"))
     return res
 
